@@ -1,6 +1,7 @@
 package interp
 
 import (
+	"encoding/json"
 	"fmt"
 	"go/token"
 	"go/types"
@@ -987,6 +988,18 @@ func init() {
 		return len(fr.m.encodeRune(a[0]))
 	})
 
+	reg("encoding/json.Marshal", func(fr *frame, a []value) value {
+		nv, ok := toNative(a[0])
+		if !ok {
+			return tuple{strBytes(fr.m.opaqueText(nil)), iface{}}
+		}
+		data, err := json.Marshal(nv)
+		if err != nil {
+			return tuple{[]value(nil), fr.m.nativeError(err)}
+		}
+		return tuple{strBytes(string(data)), iface{}}
+	})
+
 	// ---- misc
 	reg("runtime.Gosched", func(fr *frame, a []value) value {
 		fr.m.blockX(fr, "gosched", func() bool { return true }, true)
@@ -1233,4 +1246,58 @@ func (m *Machine) opaqueText(v value) value {
 		return fmt.Sprintf("‹sym:%d›", t.ID)
 	}
 	return "‹sym›"
+}
+
+// toNative converts a JSON-like interpreter value (interface{} trees of maps,
+// slices and concrete scalars) to a native Go value. ok=false if the value
+// contains symbolic parts or kinds json cannot encode.
+func toNative(v value) (interface{}, bool) {
+	switch x := v.(type) {
+	case iface:
+		if x.t == nil {
+			return nil, true
+		}
+		return toNative(x.v)
+	case bool, int, int8, int16, int32, int64, uint, uint8, uint16, uint32, uint64, float32, float64, string:
+		return x, true
+	case []value:
+		if x == nil {
+			return []interface{}(nil), true
+		}
+		out := make([]interface{}, len(x))
+		for i, e := range x {
+			n, ok := toNative(e)
+			if !ok {
+				return nil, false
+			}
+			out[i] = n
+		}
+		return out, true
+	case *omap:
+		if x == nil {
+			return map[string]interface{}(nil), true
+		}
+		out := map[string]interface{}{}
+		for _, e := range x.ents {
+			if e.dead {
+				continue
+			}
+			k, ok := e.key.(string)
+			if !ok {
+				return nil, false
+			}
+			n, ok := toNative(e.val)
+			if !ok {
+				return nil, false
+			}
+			out[k] = n
+		}
+		return out, true
+	case *value:
+		if x == nil {
+			return nil, true
+		}
+		return toNative(*x)
+	}
+	return nil, false
 }
